@@ -118,6 +118,16 @@ func (e *ParserData) WriteCode(T CodeType, value any) {
 	e.codeIndex += 1
 }
 
+// AddHalt ends the program. The terminator does not count towards the instruction capacity: a body that fills
+// its own code block to the last slot where it is defined (a function or computed value has no terminator there)
+// must still compile when its text is compiled on its own, after a restore from JSON.
+func (e *ParserData) AddHalt() {
+	if !e.codeOverflow && e.codeIndex >= len(e.code) && len(e.code)*2 > 8192 {
+		e.code = append(e.code[:e.codeIndex], ByteCode{})
+	}
+	e.WriteCode(typeHalt, nil)
+}
+
 func (p *ParserData) AddDiceDetail(begin IntType, end IntType) {
 	p.WriteCode(typeDetailMark, BufferSpan{Begin: begin, End: end})
 }
